@@ -2,9 +2,11 @@ package queuecheck
 
 import (
 	"bufio"
+	"bytes"
 	"context"
 	"encoding/json"
 	"fmt"
+	"io"
 	"net"
 	"os"
 	"strings"
@@ -44,6 +46,7 @@ type hop struct {
 	lmtp bool
 	utf8 bool
 	na   bool // log the final-dot result per recipient (TBodyNA): the client is a PartialDelivery
+	mid  bool // a scripted unclassified body failure resets the connection in the MIDDLE of the transfer
 	tr   *vtrace.Tracer
 	plan []scripted.AttemptPlan
 	id   func(string) string
@@ -83,10 +86,12 @@ func (h *hop) serve() {
 	}
 }
 
+var hopTempCode = "451" // per behaviour (sequential)
+
 func code(res string) string {
 	switch res {
 	case "temp":
-		return "451 4.3.0 scripted temporary failure"
+		return hopTempCode + " 4.3.0 scripted temporary failure"
 	case "perm":
 		return "550 5.1.1 scripted permanent failure"
 	}
@@ -190,6 +195,28 @@ func (h *hop) handle(c net.Conn) {
 				continue
 			}
 			if !wr("354 go ahead") {
+				return
+			}
+			h.mu.Lock()
+			mid, naMid := h.mid, h.na
+			h.mu.Unlock()
+			if mid && !h.lmtp && plan.Body == "unspec" {
+				// the connection is reset while the client is still sending (the message is bigger than
+				// any socket buffer): the transfer fails in the middle, not at the final dot
+				io.CopyN(io.Discard, rd, 16<<10)
+				if naMid {
+					st := map[string]interface{}{}
+					for _, r := range acc {
+						st[r] = "unspec"
+					}
+					tr.Emit("TBodyNA", vtrace.Ev{"att": att, "st": st})
+				} else {
+					tr.Emit("TBody", vtrace.Ev{"att": att, "res": "unspec"})
+				}
+				tr.Emit("TAbort", vtrace.Ev{"att": att})
+				if tc, ok := c.(*net.TCPConn); ok {
+					tc.SetLinger(0)
+				}
 				return
 			}
 			for {
@@ -315,7 +342,12 @@ func runReal(t *testing.T, b Behaviour, w *bufio.Writer, hops map[hopKey]*hop, d
 	defer os.RemoveAll(dir)
 	useIdn = b.Cfg.Idn
 	caseVar = b.Cfg.CaseVar
-	defer func() { useIdn = false; caseVar = false }()
+	uniLocal = b.Cfg.UniLocal && b.Cfg.Utf8
+	hopTempCode = "451"
+	if b.Cfg.ErrShape == "421" {
+		hopTempCode = "421"
+	}
+	defer func() { useIdn = false; caseVar = false; uniLocal = false; hopTempCode = "451" }()
 	tr := vtrace.New(w, b.ID)
 	tr.Emit("Cfg", vtrace.Ev{"partial": b.Cfg.Partial, "bounce": b.Cfg.Bounce, "nullSender": b.Cfg.NullSender,
 		"mt": b.Cfg.Mt, "list": b.Cfg.List, "rw": []string{}, "utf8": b.Cfg.Utf8, "chain": false,
@@ -325,6 +357,7 @@ func runReal(t *testing.T, b Behaviour, w *bufio.Writer, hops map[hopKey]*hop, d
 	h.set(tr, PlanOf(b.Hist), idOf)
 	h.mu.Lock()
 	h.na = b.Cfg.Fwd == "remote"
+	h.mid = b.Cfg.MidData
 	h.mu.Unlock()
 	var tgt module.DeliveryTarget = downs[hk]
 	if b.Cfg.Fwd == "remote" {
@@ -403,7 +436,11 @@ func runReal(t *testing.T, b Behaviour, w *bufio.Writer, hops map[hopKey]*hop, d
 	hdr := textproto.Header{}
 	hdr.Add("Subject", "verif-subject-"+itoa(b.ID))
 	hdr.Add("From", "<sender@example.com>")
-	if err := d.Body(ctx, hdr, buffer.MemoryBuffer{Slice: []byte("hello\r\n.dot\r\n")}); err != nil {
+	body := []byte("hello\r\n.dot\r\n")
+	if b.Cfg.MidData {
+		body = append(body, bytes.Repeat([]byte("0123456789abcdef0123456789abcdef0123456789abcdef0123456789abcd\r\n"), 8<<20/64)...)
+	}
+	if err := d.Body(ctx, hdr, buffer.MemoryBuffer{Slice: body}); err != nil {
 		t.Fatal(err)
 	}
 	tr.Emit("QAccept", vtrace.Ev{"rcpts": distinct})
